@@ -31,6 +31,10 @@ def bin_of(v):
         v = v[1]
     if v[0] == "bin":
         return (v[1].replace("WithOverflow", ""), v[2], v[3])
+    # the payload of `a.checked_sub(b)` / `a.checked_add(b)` (it exists only when the operation does not overflow)
+    if v[0] == "field" and v[2] == "0" and v[1][0] == "downcast" and v[1][2] == "Some" and v[1][1][0] == "call" and v[1][1][4] in ("checked_sub", "checked_add") \
+            and len(v[1][1][2]) == 2:
+        return ("Sub" if v[1][1][4] == "checked_sub" else "Add", v[1][1][2][0], v[1][1][2][1])
     return None
 
 
@@ -511,58 +515,46 @@ def views(ctx, m):
 
 # ---------------------------------------------------------------------------------- never crossed
 def never_crossed(ctx, m, rule="never-crossed"):
-    """judged on the whole-operation views of place_order / modify_order (independent of how placement, matching and
-    queueing are cut into helpers): every path to an insertion on side S has seen trading == false or has passed through
-    the matching loop whose passive side is opposite(S)"""
+    """judged on the whole-operation views of place_order / modify_order specialised to either side S of the order
+    (independent of how placement, matching and queueing are cut into helpers and of how often the side is re-tested):
+    every path to an insertion has seen trading == false or has passed through the matching loop whose passive side is
+    opposite(S); the loop over the order's own side is never entered"""
     n = 0
     n_loops = 0
     for root in (m.book_fn("place_order"), m.book_fn("modify_order")):
-        q = m.ov(root)
-        loops = m.ov_matching_loops(q)
-        n_loops += len(loops)
-        # edges taken when trading is off
-        trading_off = []
-        for blk in q.body.blocks:
-            t = blk.term
-            if blk.cleanup or not t or t.k != "switch":
-                continue
-            for s in set(q.body.succs(blk.i)):
-                for a in q.cfg.edge_atoms(blk.i, s):
-                    if a[0] == "bool" and a[2] is False and fld(a[1], m.f_trading):
-                        trading_off.append((blk.i, s))
-        for (c, side) in m.side_op_calls(q, "insert_order"):
-            n += 1
-            # branch outcomes that contradict the insertion's own controlling conditions (the same
-            # immutable side discriminant tested twice) are infeasible together with it
-            mine = {(repr(a[1]), a[2]) for a in c.guards if a[0] == "variant"}
-
-            def contradicts(atoms):
-                for a in atoms:
-                    if a[0] == "variant":
-                        for (subj, names) in mine:
-                            if subj == repr(a[1]) and not (set(names) & set(a[2])):
-                                return True
-                return False
-            mloops = [(h, x) for (h, sd, x) in loops if sd == opposite(side) and not contradicts(q.cfg.guards(h))]
-            wrong = [(h, x) for (h, sd, x) in loops if sd == side and q.cfg.can_reach(h, c.b) and not contradicts(q.cfg.guards(h))]
-            off_edges = list(trading_off)
+        for S in ("Bid", "Ask"):
+            q = m.sv(root, S)
+            live = q.cfg.reach_from(0)
+            loops = [x for x in m.ov_matching_loops(q) if x[0] in live]
+            n_loops += len(loops)
+            # edges taken when trading is off
+            off_edges = []
             for blk in q.body.blocks:
                 t = blk.term
                 if blk.cleanup or not t or t.k != "switch":
                     continue
                 for s in set(q.body.succs(blk.i)):
-                    if contradicts(q.cfg.edge_atoms(blk.i, s)):
-                        off_edges.append((blk.i, s))
-            cut = [h for (h, _x) in mloops]
-            reach = q.cfg.reach_from(0, cut_edges=off_edges, cut_blocks=cut)
-            guarded = all(any(a[0] == "bool" and a[2] is True and fld(a[1], m.f_trading) for a in q.cfg.guards(h)) for (h, _x) in mloops)
-            ok = bool(mloops) and c.b not in reach and guarded and not wrong
-            ctx.check(ok, rule, "%s|%s" % (root.short(), side), c.loc(),
-                      "%s: every path to the %s-side insertion either saw trading == false or ran the %s-side matching loop first" % (root.name, side, opposite(side)),
-                      "%s: a path reaches the %s-side insertion with trading on and without running the %s-side matching loop%s" % (
-                          root.name, side, opposite(side), " (it runs the same-side loop instead)" if wrong else ""))
-    ctx.check(n_loops >= 4, rule, "matchers", "-", "%d matching loops inside the whole-operation views of place_order / modify_order" % n_loops)
-    ctx.check(n >= 4, rule, "census", "-", "%d insertion sites in the whole-operation views of place_order / modify_order" % n)
+                    for a in q.cfg.edge_atoms(blk.i, s):
+                        if a[0] == "bool" and a[2] is False and fld(a[1], m.f_trading):
+                            off_edges.append((blk.i, s))
+            good = [(h, x) for (h, sd, x) in loops if sd == opposite(S)]
+            wrong = [(h, x) for (h, sd, x) in loops if sd == S]
+            ctx.check(not wrong, rule, "%s|own-side-loop|%s" % (root.short(), S), wrong[0][1].loc() if wrong else ctx.loc(root),
+                      "%s of a %s order never enters the matching loop over the %s side" % (root.name, S, S),
+                      "%s of a %s order can enter the matching loop over its own side" % (root.name, S))
+            reach = q.cfg.reach_from(0, cut_edges=off_edges, cut_blocks=[h for (h, _x) in good])
+            guarded = all(any(a[0] == "bool" and a[2] is True and fld(a[1], m.f_trading) for a in q.cfg.guards(h)) for (h, _x) in good)
+            for (c, side) in m.side_op_calls(q, "insert_order"):
+                if c.b not in live:
+                    continue
+                n += 1
+                ok = bool(good) and c.b not in reach and guarded and side == S
+                ctx.check(ok, rule, "%s|%s" % (root.short(), S), c.loc(),
+                          "%s: every path to the %s-side insertion either saw trading == false or ran the %s-side matching loop first" % (root.name, S, opposite(S)),
+                          "%s: a path reaches the %s-side insertion of a %s order with trading on and without running the %s-side matching loop" % (
+                              root.name, side, S, opposite(S)))
+    ctx.check(n_loops >= 4, rule, "matchers", "-", "%d matching loops inside the side-specialised whole-operation views of place_order / modify_order" % n_loops)
+    ctx.check(n >= 4, rule, "census", "-", "%d insertion sites in the side-specialised whole-operation views of place_order / modify_order" % n)
     ctx.note("that the loop only exits when the limit no longer admits the opposite best price is premise K4 of C01")
 
 
